@@ -11,6 +11,7 @@ pub mod c18;
 pub mod c18b;
 pub mod c19;
 pub mod c20;
+pub mod c02;
 pub mod c03;
 pub mod c06;
 pub mod c11;
@@ -36,6 +37,7 @@ pub fn run(args: &Args) -> ! {
         "C12" => c12::run(args),
         "C18" => c18::run(args),
         "C03" => c03::run(args),
+        "C02" => c02::run(args),
         p => {
             eprintln!("INFRA: unknown property '{}'", p);
             std::process::exit(2)
@@ -70,6 +72,7 @@ pub fn replay_one(ctx: &Ctx, doc: &ReplayDoc) {
         "C12" => c12::replay_one(ctx, doc),
         "C18" => c18::replay_one(ctx, doc),
         "C03" => c03::replay_one(ctx, doc),
+        "C02" => c02::replay_one(ctx, doc),
         p => ctx.infra_error(format!("unknown property '{}' in replay file", p)),
     }
 }
